@@ -53,6 +53,7 @@ def correspondence(ctx, violations, known_hits):
                 violations.append({"kind": "debugged-run-differs-from-plain-run", "case": cases[a], "plain_case": cases[b],
                                    "debugged": ri[a][0], "plain": ri[b][0]})
     real = dbgcommon.cli_cross(ctx, specs, violations, limit=(60 if ctx.tier == "quick" else 1500))
+    r["evaluations"] += real.get("sessions", 0)
     real["shared_stdin"] = dbgcommon.cli_shared_stream(ctx, violations, n=(24 if ctx.tier == "quick" else 400))
     ctx.cleanup()
     return dbgcommon.coverage(r,
